@@ -106,6 +106,9 @@ class Pool:
                     raise ValueError("bad value")  # fails while the object graph is being built
                 return int(x)
             mm.register_obj_processors({"Leaf": p, "Val": val})
+            if c == "grepo":
+                # a model processor whose effect is visible in the model: it must be applied exactly once per loaded file
+                mm.register_model_processor(lambda model, metamodel: setattr(model, "b", str(model.b or "") + "!"))
         if c != "decoy":
             mm.register_scope_providers({"*.*": PlainNameImportURI()})
         self.mms[c] = mm
